@@ -13,11 +13,15 @@ getters (the *snapshot*), runs `Validation(root)` and
     snapshot (correspondence),
   - evaluates the property restated over the snapshot (oracle, independent of the model).
 """
+import atexit
 import datetime as dt
 import os
+import re
 import shutil
+import signal
 import sys
 import tempfile
+import threading
 import uuid
 
 import framework as fw
@@ -75,6 +79,8 @@ def val_to_model(v):
     if isinstance(v, str):
         if not v.isascii() or "_" in v:
             raise Unsupported("non-ascii / underscore string value")
+        if re.search(r"[eE][+-]?[0-9]{3,}", v):
+            raise Unsupported("decimal exponent beyond the modelled range (see the assumptions)")
         return {"s": v}
     if isinstance(v, dt.datetime):
         return {"d": "datetime"}
@@ -101,7 +107,13 @@ def card_to_model(c):
 
 
 def opt_str(x, what):
-    if x is None or isinstance(x, str):
+    if x is None:
+        return x
+    if isinstance(x, str):
+        # lone surrogates / characters outside the BMP do not survive the JSON transport to the
+        # driver as the same code points: the model is skipped, the oracle still decides
+        if any(ord(ch) > 0xFFFF or 0xD800 <= ord(ch) <= 0xDFFF for ch in x):
+            raise Unsupported("%s with a surrogate / non-BMP character" % what)
         return x
     raise Unsupported("%s of type %s" % (what, type(x).__name__))
 
@@ -125,6 +137,21 @@ class Built(object):
     def tmp(self):
         self.counter += 1
         return "tmp%d" % self.counter
+
+
+def apply_decor(obj, decor):
+    """Attributes no validation rule reads (definition, reference, repository, unit, ...), set through
+    the public setters; a setter that refuses a value leaves the attribute as it was."""
+    for key in sorted(decor or {}):
+        val = decor[key]
+        if key == "repository" and val == "TERM":
+            val = term_url()
+            if val is None:
+                continue
+        try:
+            setattr(obj, key, val)
+        except Exception:
+            pass
 
 
 def build_prop(spec, parent, bt):
@@ -153,6 +180,7 @@ def build_prop(spec, parent, bt):
         prop.dependency_value = spec["dv"]
     if spec.get("card") is not None:
         prop.val_cardinality = tuple(spec["card"])
+    apply_decor(prop, spec.get("x"))
     if parent is not None:
         parent.append(prop)
     return prop
@@ -166,6 +194,7 @@ def build_sec(spec, parent, bt, later):
         sec.sec_cardinality = tuple(spec["sc"])
     if spec.get("pc") is not None:
         sec.prop_cardinality = tuple(spec["pc"])
+    apply_decor(sec, spec.get("x"))
     for ps in spec.get("props", []):
         later.append((build_prop(ps, sec, bt), ps))
     for ss in spec.get("subs", []):
@@ -202,6 +231,356 @@ def build(case):
     return root, bt
 
 
+# ----------------------------------------------------------------------------- operation histories
+# The "ops" stream: a built tree, then a history of public-API operations on it (links and includes,
+# resolved and unresolved; merges; clones with and without keep_id; edits of the very objects an
+# earlier operation touched; removals, reorderings; validations and saves in between; a round trip
+# through a writer/reader), then the validation of the Document, of a Section inside it or of a
+# Property inside it.  An operation the API refuses (dangling link, name clash, bad cardinality)
+# is part of the history too: it is counted and the history goes on.
+_TERM = {}
+_SCRATCH = {}
+
+
+def scratch_dir():
+    """One directory for the files the saves write (made once, before the workers fork; removed at
+    exit by the process that made it).  Every save uses a file name of its own and removes it."""
+    if "dir" not in _SCRATCH:
+        _SCRATCH["dir"] = tempfile.mkdtemp(prefix="c08_save_")
+        atexit.register(_scratch_cleanup, _SCRATCH["dir"], os.getpid())
+    return _SCRATCH["dir"]
+
+
+def _scratch_cleanup(path, pid):
+    if os.getpid() == pid:
+        shutil.rmtree(path, ignore_errors=True)
+
+
+def term_url():
+    """file:// URL of a small terminology document, written once (by the library's own writer)."""
+    if "url" in _TERM:
+        return _TERM["url"]
+    _TERM["url"] = None
+    try:
+        import odml
+        from odml.tools.odmlparser import ODMLWriter
+        doc = odml.Document()
+        top = odml.Section(name="T", type="t", parent=doc)
+        odml.Property(name="tp", values=[1, 2], parent=top)
+        odml.Property(name="tq", values=["x"], dependency="nope", parent=top)
+        sub = odml.Section(name="ts", type="n.s.", parent=top)
+        odml.Property(name="tr", values=["2020-01-02"], dtype="string", parent=sub)
+        odml.Section(name="tu", type="u", parent=top, sec_cardinality=(1, None))
+        odml.Section(name="T2", type="t", parent=doc)
+        text = ODMLWriter("XML").to_string(doc)
+        tmp = tempfile.mkdtemp(prefix="c08_term_")
+        name = "c08term%d.xml" % os.getpid()
+        with open(os.path.join(tmp, name), "w", encoding="utf-8") as fh:
+            fh.write(text)
+        atexit.register(_term_cleanup, tmp, name, os.getpid())
+        _TERM["url"] = "file://" + os.path.join(tmp, name)
+    except Exception:
+        _TERM["url"] = None
+    return _TERM["url"]
+
+
+def _term_cleanup(tmp, name, pid):
+    if os.getpid() != pid:
+        return
+    shutil.rmtree(tmp, ignore_errors=True)
+    cache = os.path.join(tempfile.gettempdir(), "odml.cache")      # the library's download cache
+    try:
+        for entry in os.listdir(cache):
+            if entry.endswith("." + name):
+                os.remove(os.path.join(cache, entry))
+    except OSError:
+        pass
+
+
+def sec_at(root, path):
+    """The object a path of child indices addresses (indices are taken modulo the number of children,
+    the walk stops where there are none): the root itself for an empty path."""
+    cur = root
+    for i in path:
+        kids = cur.sections
+        if not len(kids):
+            break
+        cur = kids[i % len(kids)]
+    return cur
+
+
+def is_section(obj):
+    return obj.format().name == "section"
+
+
+def related(a, b):
+    """is one of the two an ancestor of (or the same object as) the other?"""
+    for x, y in ((a, b), (b, a)):
+        cur = x
+        while cur is not None:
+            if cur is y:
+                return True
+            cur = cur.parent
+    return False
+
+
+def tree_size(root):
+    n = 0
+    for sec in root.itersections(recursive=True):
+        n += 1 + len(sec.properties)
+    return n
+
+
+class HistoryTooLong(BaseException):
+    """The history (not the validation) ran out of its CPU budget or blew the tree up.
+    (A BaseException, like the framework's CaseTimeout: no `except Exception` may swallow it.)"""
+
+
+MAX_TREE = 400           # Sections + Properties; merged copies of merged copies grow geometrically
+HISTORY_CPU_S = 4.0
+
+
+def prop_at(sec, i):
+    if not is_section(sec) or not len(sec.properties):
+        return None
+    return sec.properties[i % len(sec.properties)]
+
+
+def card_value(v):
+    """JSON spelling of a cardinality argument -> the Python value handed to the setter."""
+    if isinstance(v, dict):
+        if "tuple" in v:
+            return tuple(v["tuple"])
+        if "float" in v:
+            return tuple(None if x is None else float(x) for x in v["float"])
+    return v
+
+
+class History(object):
+    def __init__(self, check):
+        self.check = check
+        self.refused = 0
+        self.applied = 0
+        self.stale = []          # Validation objects made during the history, re-run at the end
+        self.writers = {}        # one writer object per format, reused by every save of the case
+        self.saves = []          # judged save attempts
+        self.mid = []            # oracle failures of validations in the middle of the history
+
+
+def apply_op(op, root, bt, hist):
+    """Applies one operation; returns the (possibly new) root."""
+    import odml
+    kind = op["op"]
+    sec = sec_at(root, op.get("at", []))
+    if kind in ("link", "include"):
+        if kind == "link":
+            tgt = sec_at(root, op.get("to", []))
+            # a Section merged with its own ancestor / descendant copies itself, and finalize() then
+            # walks a tree that grows while it is walked: histories of that kind are not generated
+            if not is_section(tgt) or related(sec, tgt):
+                return root
+            if op.get("dangling"):
+                value = tgt.get_path() + "/nowhere"
+            elif op.get("rel") and is_section(sec):
+                value = sec.get_relative_path(tgt)
+            else:
+                value = tgt.get_path()
+        else:
+            url = term_url() if op.get("target") != "missing" else None
+            value = (url or "file:///nonexistent/c08_missing.xml") + op.get("frag", "")
+        how = op.get("how", "setter")
+        if how == "ctor":
+            # what the readers do: the attribute is handed to the constructor and stays unresolved
+            new = odml.Section(name=op.get("name", "lk"), type=op.get("type", "t"), parent=sec,
+                               oid=tok_id(op["id"]), **{kind: value})
+            apply_edits_spec(new, op)
+        elif how == "detached":
+            # set while the Section has no parent (stays unresolved), then attached
+            new = odml.Section(name=op.get("name", "lk"), type=op.get("type", "t"), oid=tok_id(op["id"]))
+            setattr(new, kind, value)
+            apply_edits_spec(new, op)
+            sec.append(new)
+        elif is_section(sec):
+            setattr(sec, kind, value)
+    elif kind == "unlink":
+        if is_section(sec):
+            if op.get("how") == "clean":
+                sec.clean()
+            elif sec.include is not None:
+                sec.include = None
+            else:
+                sec.link = None
+    elif kind == "merge":
+        src = sec_at(root, op.get("src", []))
+        if is_section(sec) and is_section(src) and not related(sec, src):
+            sec.merge(src, strict=bool(op.get("strict")))
+    elif kind == "finalize":
+        if not is_section(root):
+            root.finalize()
+    elif kind == "set":
+        if not is_section(sec):
+            return root
+        attr, value = op["attr"], op.get("value")
+        if attr == "name":
+            set_name(sec, sec.id if value == "=id" else value)
+        elif attr == "sc":
+            sec.sec_cardinality = card_value(value)
+        elif attr == "pc":
+            sec.prop_cardinality = card_value(value)
+        elif attr == "type":
+            sec.type = value
+        else:
+            apply_decor(sec, {attr: value})
+    elif kind == "add_prop":
+        if is_section(sec):
+            prop = build_prop(op["prop"], sec, bt)
+            set_name(prop, resolve_name(prop, op["prop"]))
+    elif kind == "add_sec":
+        later = []
+        build_sec(op["sec"], sec, bt, later)
+        for obj, spec in later:
+            set_name(obj, resolve_name(obj, spec))
+    elif kind == "clone":
+        dest = sec_at(root, op.get("to", []))
+        if not is_section(sec):
+            return root
+        new = sec.clone(children=op.get("children", True), keep_id=bool(op.get("keep_id")))
+        if op.get("rename") is not None:
+            set_name(new, op["rename"])
+        how = op.get("how", "append")
+        if how == "insert":
+            dest.insert(op.get("pos", 0), new)
+        elif how == "extend":
+            dest.extend([new])
+        else:
+            dest.append(new)
+    elif kind == "pclone":
+        prop = prop_at(sec, op.get("i", 0))
+        dest = sec_at(root, op.get("to", []))
+        if prop is not None and is_section(dest):
+            new = prop.clone(keep_id=bool(op.get("keep_id")))
+            if op.get("rename") is not None:
+                set_name(new, op["rename"])
+            if op.get("how") == "insert":
+                dest.insert(op.get("pos", 0), new)
+            else:
+                dest.append(new)
+    elif kind == "remove":
+        if is_section(sec) and sec.parent is not None and sec is not root:
+            sec.parent.remove(sec)
+    elif kind == "premove":
+        prop = prop_at(sec, op.get("i", 0))
+        if prop is not None:
+            sec.remove(prop)
+    elif kind == "reorder":
+        if is_section(sec) and sec.parent is not None and sec is not root:
+            sec.reorder(op.get("k", 0) % len(sec.parent.sections))
+    elif kind == "pset":
+        prop = prop_at(sec, op.get("i", 0))
+        if prop is None:
+            return root
+        attr, value = op["attr"], op.get("value")
+        if attr == "name":
+            set_name(prop, prop.id if value == "=id" else value)
+        elif attr == "dep":
+            prop.dependency = value
+        elif attr == "dv":
+            prop.dependency_value = value
+        elif attr == "card":
+            prop.val_cardinality = card_value(value)
+        elif attr == "values":
+            prop.values = [val_to_py(v) for v in value]
+        elif attr == "dtype":
+            prop.dtype = value
+        else:
+            apply_decor(prop, {attr: value})
+    elif kind == "validate":
+        from odml.validation import Validation
+        how = op.get("how")
+        if how == "method" and not is_section(root):
+            val = root.validate()
+        elif how == "deferred":
+            val = Validation(root, validate=False)
+        else:
+            val = Validation(root)
+        if op.get("judge") and how != "deferred":
+            hist.mid.extend("in the middle of the history: " + f for f in judge_now(root, val.errors))
+        hist.stale.append(val)
+    elif kind == "save":
+        if not is_section(root):
+            hist.saves.append(hist.check.judged_save(root, op.get("fmt", "XML"), op.get("entry", "writer"), hist))
+    elif kind == "roundtrip":
+        if is_section(root):
+            return root
+        from odml.tools.odmlparser import ODMLReader, ODMLWriter
+        fmt = op.get("fmt", "XML")
+        text = ODMLWriter(fmt).to_string(root)
+        new_root = ODMLReader(fmt, show_warnings=False).from_string(text)
+        if new_root is not None and not is_section(new_root):
+            hist.stale = []
+            return new_root
+    else:
+        raise ValueError("unknown operation %r" % kind)
+    return root
+
+
+def apply_edits_spec(sec, op):
+    """Edits that belong to a freshly made linking / including Section (before it is resolved)."""
+    if "set_type" in op:
+        sec.type = op["set_type"]
+    if op.get("sc") is not None:
+        sec.sec_cardinality = card_value(op["sc"])
+    if op.get("pc") is not None:
+        sec.prop_cardinality = card_value(op["pc"])
+
+
+def judge_now(root, errors):
+    kind, snap, refs = snapshot(root)
+    return judge(expectation(kind, snap), issue_list(errors, refs), None)
+
+
+def run_history(case, root, bt, check):
+    """Applies the operations.  Building the tree is not what the property is about: a history that
+    exhausts its own CPU budget (SIGPROF, independent of the framework's per-case clocks) or lets the
+    tree explode raises HistoryTooLong and the case is dropped without a verdict."""
+    hist = History(check)
+
+    def on_prof(_sig, _frm):
+        raise HistoryTooLong()
+    old = signal.signal(signal.SIGPROF, on_prof)
+    signal.setitimer(signal.ITIMER_PROF, HISTORY_CPU_S, 0.5)      # fires again should it get lost
+    try:
+        for op in case.get("ops", []):
+            try:
+                root = apply_op(op, root, bt, hist)
+                hist.applied += 1
+            except Exception:
+                hist.refused += 1
+            if tree_size(root) > MAX_TREE:
+                raise HistoryTooLong()
+    finally:
+        for _ in range(3):              # a last tick may arrive while the timer is being taken down
+            try:
+                signal.setitimer(signal.ITIMER_PROF, 0)
+                signal.signal(signal.SIGPROF, old)
+                break
+            except HistoryTooLong:
+                continue
+    return root, hist
+
+
+def pick_view(case, root):
+    """What is validated in the end: the root, a Section below it, or a Property inside the tree."""
+    view = case.get("view")
+    if not view:
+        return root
+    sec = sec_at(root, view.get("sec", []))
+    if "prop" in view:
+        prop = prop_at(sec, view["prop"])
+        return prop if prop is not None else sec
+    return sec
+
+
 # ----------------------------------------------------------------------------- snapshot
 def snap_prop(p, refs, ref):
     refs[id(p)] = ref
@@ -226,6 +605,11 @@ def snapshot(root):
     """Public-API read-back of the tree under root -> (kind, python snapshot, id(obj) -> ref)."""
     refs = {}
     fname = root.format().name
+    if fname == "property" and root.parent is not None:
+        # a Property inside a Section, validated directly ("pin"): its siblings are what the
+        # dependency rule looks at
+        return "pin", {"prop": snap_prop(root, refs, "P#0"),
+                       "siblings": [snap_prop(q, {}, "") for q in root.parent.properties]}, refs
     if fname == "property":
         return "prop", snap_prop(root, refs, "P#0"), refs
     if fname == "section":
@@ -245,12 +629,15 @@ def model_prop(p):
 def model_sec(s):
     if s["name"] is None or not isinstance(s["name"], str):
         raise Unsupported("section name %r" % (s["name"],))
-    return {"id": opt_str(s["id"], "id"), "name": s["name"], "type": opt_str(s["type"], "type"),
+    return {"id": opt_str(s["id"], "id"), "name": opt_str(s["name"], "name"),
+            "type": opt_str(s["type"], "type"),
             "sc": card_to_model(s["sc"]), "pc": card_to_model(s["pc"]),
             "props": [model_prop(p) for p in s["props"]], "subs": [model_sec(c) for c in s["subs"]]}
 
 
 def model_node(kind, snap):
+    if kind == "pin":
+        raise Unsupported("a Property inside a Section validated directly is not a Node of the model")
     if kind == "prop":
         if snap["name"] is None:
             raise Unsupported("property name None")
@@ -283,6 +670,8 @@ def jsonable(snap):
         return q
     if "secs" in snap:
         return {"id": snap["id"], "secs": [sec(c) for c in snap["secs"]]}
+    if "siblings" in snap:
+        return {"prop": prop(snap["prop"]), "siblings": [prop(q) for q in snap["siblings"]]}
     if "subs" in snap:
         return sec(snap)
     return prop(snap)
@@ -351,12 +740,18 @@ def expect_prop(p, ref, siblings, ex, validated=True):
             if q["name"] == dep:
                 target = q
                 break
-        if target is None:
+        if target is None and dep == "":
+            # an empty dependency string names no Property: "no dependency" and "unsatisfied
+            # dependency" are both defensible readings, the property text does not decide
+            ex.may.add((ref, 401))
+        elif target is None:
             ex.need(ref, 401)
         else:
             dv = p["dv"]
             if dv is None or any(type(v) is type(dv) and v == dv for v in target["values"]):
                 pass
+            elif dv == "":
+                ex.may.add((ref, 401))      # an empty required value: same ambiguity
             elif isinstance(dv, str) and not any(v == dv or str(v) == dv for v in target["values"]):
                 ex.need(ref, 401)
             else:
@@ -434,7 +829,9 @@ def all_ids(s, path, out):
 
 def expectation(kind, snap):
     ex = Expect()
-    if kind == "prop":
+    if kind == "pin":
+        expect_prop(snap["prop"], "P#0", snap["siblings"], ex)
+    elif kind == "prop":
         expect_prop(snap, "P#0", None, ex)
     elif kind == "sec":
         expect_sec(snap, [], ex, True)
@@ -570,18 +967,44 @@ CLASSES = [["1", "-3", "--5", " 7 "], ["1.5", "-1.5", "0.25"], ["2020-01-02", "2
            ["true", "t", "TRUEx", "False", "ff", "f"], ["a\nb", "c\rd"], ["abc", "x y", "hello"]]
 
 
-def fresh_name(rng, used, dirt):
+# Pools of the generator.  BASE is what the first streams have always drawn from (kept as it is, so
+# their cases do not change); WIDE adds the neighbours: whitespace-only and non-ASCII names and
+# types (NFC/NFD spellings of one letter, a lone surrogate), other spellings of "n.s.", two-digit
+# and huge cardinality bounds, the empty dependency / dependency value, and attributes the rules
+# never read (definition, reference, repository, unit, ...) which must not change any verdict.
+BASE = {"names": NAMES, "types": TYPES, "cards": CARDS, "dtypes": DTYPES, "deps": ["zz", "a", "b"],
+        "dvs": ["a", "1", "abc", "true", "2.5", "x", "hello", "2"], "decor": 0.0}
+WIDE = {"names": NAMES + [" ", "\u00e4", "\u00e9", "e\u0301", "\u540d", "a b", "A", "\ud800", "a.b"],
+        "types": TYPES + [" ", "N.S.", "n.s. ", "\u00fc", "t/sub", "n.s"],
+        "cards": CARDS + [[10, None], [None, 10], [9, 11], [10, 10], [0, 0], [None, 10 ** 20], [12, 100]],
+        "dtypes": DTYPES, "deps": ["zz", "a", "b", "", " ", "\u00e4"],
+        "dvs": ["a", "1", "abc", "true", "2.5", "x", "hello", "2", "", " ", "\u00e4"], "decor": 0.3}
+SEC_DECOR = {"definition": ["d", "", "a\nb", "\u00e4"], "reference": ["r", "", "doi:1"],
+             "repository": ["TERM", "file:///nonexistent/c08_repo.xml"]}
+PROP_DECOR = {"unit": ["mV", "", "\u00b5V"], "uncertainty": [0.5, 0, "0.1"], "definition": ["d", ""],
+              "reference": ["r", ""], "value_origin": ["f.txt", ""]}
+
+
+def gen_decor(rng, table):
+    out = {}
+    for key in sorted(table):
+        if rng.random() < 0.4:
+            out[key] = rng.choice(table[key])
+    return out
+
+
+def fresh_name(rng, used, dirt, pools=BASE):
     if rng.random() < dirt:
-        return rng.choice(NAMES)
+        return rng.choice(pools["names"])
     for n in ["a", "b", "ab", "c", "d", "e", "f", "g"]:
         if n not in used:
             return n
     return "n%d" % len(used)
 
 
-def gen_prop(rng, ids, dep_names, strs, dirt=0.6, used=()):
+def gen_prop(rng, ids, dep_names, strs, dirt=0.6, used=(), pools=BASE):
     if rng.random() < dirt:
-        dtype = rng.choice(DTYPES)
+        dtype = rng.choice(pools["dtypes"])
         if rng.random() < 0.02:
             dtype = rng.choice(["x-tuple", "-tuple", "+2-tuple", " 2-tuple"])
         values = gen_values(rng, strs)
@@ -595,26 +1018,28 @@ def gen_prop(rng, ids, dep_names, strs, dirt=0.6, used=()):
             values = [{"s": rng.choice(cls)} for _ in range(rng.choice([1, 2, 3]))]
             if rng.random() < 0.2:
                 values.append({"s": rng.choice(rng.choice(CLASSES))})
-    p = {"id": ids(), "name": fresh_name(rng, used, dirt), "dtype": dtype, "values": values,
-         "raw": raw, "card": rng.choice(CARDS) if rng.random() < max(dirt, 0.2) else None}
+    p = {"id": ids(), "name": fresh_name(rng, used, dirt, pools), "dtype": dtype, "values": values,
+         "raw": raw, "card": rng.choice(pools["cards"]) if rng.random() < max(dirt, 0.2) else None}
     if rng.random() < 0.5:
-        p["dep"] = rng.choice(dep_names + ["zz"]) if rng.random() < 0.8 and dep_names else rng.choice(["zz", "a", "b"])
+        p["dep"] = rng.choice(dep_names + ["zz"]) if rng.random() < 0.8 and dep_names else rng.choice(pools["deps"])
         if rng.random() < 0.7:
-            p["dv"] = rng.choice(["a", "1", "abc", "true", "2.5", "x", "hello", "2"] + strs[:6])
+            p["dv"] = rng.choice(pools["dvs"] + strs[:6])
+    if pools["decor"] and rng.random() < pools["decor"]:
+        p["x"] = gen_decor(rng, PROP_DECOR)
     return p
 
 
-def gen_sec(rng, ids, depth, strs, dirt=0.6, used=()):
+def gen_sec(rng, ids, depth, strs, dirt=0.6, used=(), pools=BASE):
     nsub = rng.choice([0, 0, 1, 1, 2, 3]) if depth > 0 else 0
     nprop = rng.choice([0, 1, 1, 2, 3])
     subs = []
     for _ in range(nsub):
-        subs.append(gen_sec(rng, ids, depth - 1, strs, dirt, [s["name"] for s in subs]))
+        subs.append(gen_sec(rng, ids, depth - 1, strs, dirt, [s["name"] for s in subs], pools))
     dep_names = [s["name"] for s in subs if s["name"] not in ("", "=id")]
     props = []
     for _ in range(nprop):
         props.append(gen_prop(rng, ids, dep_names + [q["name"] for q in props if q["name"] not in ("", "=id")],
-                              strs, dirt, [q["name"] for q in props]))
+                              strs, dirt, [q["name"] for q in props], pools))
     # dependencies may also name a later sibling; make the dependency value match now and then
     for q in props:
         if "dep" in q and rng.random() < 0.3 and props:
@@ -625,11 +1050,14 @@ def gen_sec(rng, ids, depth, strs, dirt=0.6, used=()):
             if svals:
                 q["dv"] = rng.choice(svals)
     clean_type = rng.choice(["t", "u", "t/sub"])
-    return {"id": ids(), "name": fresh_name(rng, used, dirt),
-            "type": rng.choice(TYPES) if rng.random() < dirt else clean_type,
-            "sc": rng.choice(CARDS) if rng.random() < max(dirt, 0.15) else None,
-            "pc": rng.choice(CARDS) if rng.random() < max(dirt, 0.15) else None,
-            "props": props, "subs": subs}
+    sec = {"id": ids(), "name": fresh_name(rng, used, dirt, pools),
+           "type": rng.choice(pools["types"]) if rng.random() < dirt else clean_type,
+           "sc": rng.choice(pools["cards"]) if rng.random() < max(dirt, 0.15) else None,
+           "pc": rng.choice(pools["cards"]) if rng.random() < max(dirt, 0.15) else None,
+           "props": props, "subs": subs}
+    if pools["decor"] and rng.random() < pools["decor"]:
+        sec["x"] = gen_decor(rng, SEC_DECOR)
+    return sec
 
 
 def id_source(rng, dup_rate):
@@ -642,6 +1070,238 @@ def id_source(rng, dup_rate):
         pool.append(tok)
         return tok
     return nxt
+
+
+# ----------------------------------------------------------------------------- operation histories
+EDIT_TYPES = [None, "", "n.s.", "n.s.", " ", "N.S.", "t", "u"]
+EDIT_CARDS = [[1, None], [2, None], [3, None], [None, 1], [None, 2], [1, 2], [2, 2], [0, 1], [3, 5], [10, None],
+              [None, 10], [9, 11], None, {"tuple": [1, None]}, {"tuple": [None, 1]}, {"tuple": [4, None]},
+              {"float": [2, None]}, {"tuple": [True, None]}, {"tuple": [-1, None]}, {"tuple": [3, 1]},
+              {"tuple": [None, 0]}, {"tuple": [0, 0]}, "1,2", 3, [2], {"tuple": [None, None]}]
+SAVE_FORMATS = ["XML", "XML", "JSON", "YAML", "RDF"]
+
+
+def rand_path(rng, lo=1, hi=3):
+    return [rng.randrange(4) for _ in range(rng.randrange(lo, hi + 1))]
+
+
+def gen_feature_op(rng, ids, at=None):
+    """one use of another library feature: link / include (resolved, unresolved, dangling), merge, clone"""
+    at = rand_path(rng) if at is None else at
+    r = rng.random()
+    fresh = {"id": ids(), "name": rng.choice(["lk", "lk", "a", "b", "lk2"]), "type": rng.choice(["t", "t", "u"])}
+    if rng.random() < 0.4:
+        # the freshly made linking Section is itself made invalid before anything is resolved
+        fresh.update(rng.choice([{"set_type": None}, {"set_type": ""}, {"set_type": "n.s."},
+                                 {"sc": [2, None]}, {"pc": [1, None]}, {"sc": [None, 1], "set_type": None}]))
+    if r < 0.32:
+        return {"op": "link", "at": at, "to": rand_path(rng), "rel": rng.random() < 0.25}
+    if r < 0.40:
+        return {"op": "link", "at": at, "to": rand_path(rng), "dangling": True}
+    if r < 0.50:
+        op = {"op": "link", "at": at[:-1] if rng.random() < 0.5 else at, "to": rand_path(rng),
+              "how": rng.choice(["ctor", "ctor", "detached"]), "dangling": rng.random() < 0.2}
+        op.update(fresh)
+        return op
+    if r < 0.64:
+        return {"op": "include", "at": at, "target": rng.choice(["term", "term", "term", "missing"]),
+                "frag": rng.choice(["", "", "#/T/ts", "#/T2", "#/T/nowhere"])}
+    if r < 0.72:
+        op = {"op": "include", "at": at[:-1] if rng.random() < 0.5 else at,
+              "target": rng.choice(["term", "term", "missing"]), "frag": rng.choice(["", "#/T/ts"]),
+              "how": rng.choice(["ctor", "detached"])}
+        op.update(fresh)
+        return op
+    if r < 0.82:
+        return {"op": "merge", "at": at, "src": rand_path(rng), "strict": rng.random() < 0.3}
+    if r < 0.95:
+        op = {"op": "clone", "at": at, "to": rand_path(rng, 0, 2), "keep_id": rng.random() < 0.6,
+              "children": rng.random() < 0.85, "how": rng.choice(["append", "append", "insert", "extend"]),
+              "pos": rng.choice([0, 1, -1, 5])}
+        if rng.random() < 0.5:
+            op["rename"] = rng.choice(["cl", "cl", "a", "b", ""])
+        return op
+    op = {"op": "pclone", "at": at, "i": rng.randrange(3), "to": rand_path(rng), "keep_id": rng.random() < 0.6,
+          "how": rng.choice(["append", "insert"]), "pos": rng.choice([0, 1, -1])}
+    if rng.random() < 0.5:
+        op["rename"] = rng.choice(["cl", "a", "b"])
+    return op
+
+
+def gen_edit_op(rng, ids, at, strs, pools):
+    """one edit of the object at `at` (or of a Property in it) that the rules are sensitive to"""
+    r = rng.random()
+    if r < 0.18:
+        return {"op": "set", "at": at, "attr": "type", "value": rng.choice(EDIT_TYPES)}
+    if r < 0.36:
+        return {"op": "set", "at": at, "attr": rng.choice(["sc", "pc"]), "value": rng.choice(EDIT_CARDS)}
+    if r < 0.42:
+        return {"op": "set", "at": at, "attr": "name", "value": rng.choice(["=id", "", "a", "b", "zz", " "])}
+    if r < 0.60:
+        prop = gen_prop(rng, ids, ["a", "b"], strs, rng.choice([0.0, 0.0, 0.3, 0.6]),
+                        rng.choice([(), (), ("a",)]), pools)
+        if rng.random() < 0.5:
+            prop["dep"] = rng.choice(["zz", "shift", "a", "b", "tp", "lk"])
+            if rng.random() < 0.4:
+                prop["dv"] = rng.choice(["x", "1", "2", "abc"])
+        return {"op": "add_prop", "at": at, "prop": prop}
+    if r < 0.68:
+        return {"op": "add_sec", "at": at,
+                "sec": gen_sec(rng, ids, rng.choice([0, 0, 1]), strs, rng.choice([0.0, 0.3, 0.6]),
+                               rng.choice([(), ("a",)]), pools)}
+    if r < 0.82:
+        attr = rng.choice(["dep", "dep", "dv", "card", "values", "dtype", "name", "unit"])
+        value = {"dep": rng.choice(["zz", "a", "b", "", None, "tp"]),
+                 "dv": rng.choice(["x", "1", "", None, "abc"]),
+                 "card": rng.choice(EDIT_CARDS),
+                 "values": [gen_val(rng, strs) for _ in range(rng.choice([0, 1, 2, 3]))],
+                 "dtype": rng.choice(["int", "string", "float", "date", "2-tuple", "boolean", None, "x"]),
+                 "name": rng.choice(["=id", "", "a", "b"]),
+                 "unit": "mV"}[attr]
+        return {"op": "pset", "at": at, "i": rng.randrange(3), "attr": attr, "value": value}
+    if r < 0.86:
+        return {"op": "remove", "at": at}
+    if r < 0.90:
+        return {"op": "premove", "at": at, "i": rng.randrange(3)}
+    if r < 0.94:
+        return {"op": "reorder", "at": at, "k": rng.randrange(4)}
+    if r < 0.97:
+        return {"op": "unlink", "at": at, "how": rng.choice(["setter", "setter", "clean"])}
+    return {"op": "set", "at": at, "attr": rng.choice(["definition", "reference", "repository"]),
+            "value": rng.choice(["d", "", "TERM"])}
+
+
+def gen_history_case(rng, strs):
+    dirt = rng.choice([0.0, 0.0, 0.0, 0.05, 0.15, 0.4])
+    ids = id_source(rng, rng.choice([0.0, 0.0, 0.1]) if dirt else 0.0)
+    pools = WIDE if rng.random() < 0.5 else BASE
+    secs = []
+    for _ in range(rng.choice([1, 2, 2, 3, 4])):
+        secs.append(gen_sec(rng, ids, rng.choice([0, 1, 1, 2, 3]), strs, dirt, [x["name"] for x in secs], pools))
+    doc = {"id": ids(), "secs": secs}
+    feats, touched = [], []
+    for _ in range(rng.choice([0, 1, 1, 1, 2, 3])):
+        op = gen_feature_op(rng, ids)
+        feats.append(op)
+        touched.append(op["at"])
+        if "to" in op and op["op"] != "link":
+            touched.append(op["to"])
+    edits = []
+    for _ in range(rng.choice([0, 1, 1, 2, 3, 4])):
+        if touched and rng.random() < 0.75:
+            at = list(rng.choice(touched))
+            r = rng.random()
+            if r < 0.2:
+                at = at + [rng.randrange(3)]        # something inside the touched Section (merged copies)
+            elif r < 0.3 and at:
+                at = at[:-1]                        # its parent
+        else:
+            at = rand_path(rng)
+        edits.append(gen_edit_op(rng, ids, at, strs, pools))
+    r = rng.random()
+    if r < 0.65:
+        ops = feats + edits                         # feature first, then the edits
+    elif r < 0.8:
+        ops = edits + feats                         # edits first
+    else:
+        ops = feats + edits
+        rng.shuffle(ops)
+    # validations, saves, round trips and finalize() somewhere in the history
+    if rng.random() < 0.45:
+        ops.insert(rng.randrange(len(ops) + 1),
+                   {"op": "validate", "how": rng.choice(["new", "method", "deferred"]), "judge": rng.random() < 0.5})
+    if rng.random() < 0.2:
+        ops.insert(rng.randrange(len(ops) + 1),
+                   {"op": "save", "fmt": rng.choice(SAVE_FORMATS), "entry": rng.choice(["writer", "odml.save"])})
+    if rng.random() < 0.12:
+        ops.insert(rng.randrange(len(ops) + 1), {"op": "roundtrip", "fmt": rng.choice(["XML", "JSON", "YAML"])})
+        if rng.random() < 0.7:
+            ops.append({"op": "finalize"})
+    elif rng.random() < 0.15:
+        ops.insert(rng.randrange(len(ops) + 1), {"op": "finalize"})
+    case = {"stream": "ops", "kind": "doc", "node": doc, "ops": ops}
+    r = rng.random()
+    if r < 0.12:
+        case["view"] = {"sec": rand_path(rng)}
+    elif r < 0.24:
+        case["view"] = {"sec": rand_path(rng), "prop": rng.randrange(3)}
+    if rng.random() < 0.3:
+        case["pre"] = True
+    if "view" not in case and rng.random() < 0.3:
+        case["save"] = {"fmt": rng.choice(SAVE_FORMATS), "entry": rng.choice(["writer", "odml.save"])}
+    return case
+
+
+def gen_shape_case(rng, strs):
+    """wide (10 and more siblings, duplicates and two-digit bounds beyond the 10th child) and deep trees"""
+    ids = id_source(rng, rng.choice([0.0, 0.0, 0.15]))
+    if rng.random() < 0.6:
+        n_sub, n_prop = rng.choice([9, 10, 11, 12, 13]), rng.choice([0, 9, 10, 11, 12])
+        subs = [{"id": ids(), "name": "s%d" % k, "type": "t", "props": [], "subs": []} for k in range(n_sub)]
+        props = [{"id": ids(), "name": "p%d" % k, "dtype": "int",
+                  "values": [{"i": j} for j in range(rng.choice([0, 1, 9, 10, 11]))],
+                  "card": rng.choice([None, None, [10, None], [None, 10], [9, 11], [11, 12], [None, 9]])}
+                 for k in range(n_prop)]
+        for lst, key in ((subs, "s"), (props, "p")):
+            for _ in range(rng.choice([0, 1, 1, 2])):
+                if len(lst) >= 2:
+                    a, b = sorted(rng.sample(range(len(lst)), 2))
+                    if rng.random() < 0.7:
+                        b = len(lst) - 1 - rng.randrange(min(3, len(lst) - 1))
+                        a = rng.randrange(b) if b else 0
+                    if a != b:
+                        lst[b]["name"] = lst[a]["name"]
+                        if key == "s" and rng.random() < 0.3:
+                            lst[b]["type"] = "u"
+        if props and rng.random() < 0.5:
+            q = rng.choice(props)
+            q["dep"] = rng.choice([p["name"] for p in props] + ["p1", "p10", "p1 ", "zz"])
+            if rng.random() < 0.5:
+                q["dv"] = rng.choice(["1", "10", "x"])
+        if subs and rng.random() < 0.5:
+            rng.choice(subs)["type"] = rng.choice([None, "", "n.s."])
+        top = {"id": ids(), "name": "w", "type": "t",
+               "sc": rng.choice([None, [10, None], [None, 10], [9, 11], [10, 10], [11, 12], [None, 9], [12, None]]),
+               "pc": rng.choice([None, [10, None], [None, 10], [9, 11], [10, 10], [11, 12], [None, 9], [12, None]]),
+               "props": props, "subs": subs}
+    else:
+        depth = rng.choice([5, 6, 8, 10])
+        top = None
+        for level in range(depth):
+            cur = gen_sec(rng, ids, 0, strs, rng.choice([0.0, 0.0, 0.3]))
+            cur["name"] = rng.choice(["a", "b", "c"]) if rng.random() < 0.7 else cur["name"]
+            if top is not None:
+                cur["subs"] = [top] + ([gen_sec(rng, ids, 0, strs, 0.3)] if rng.random() < 0.3 else [])
+            top = cur
+    r = rng.random()
+    if r < 0.6:
+        return {"stream": "shape", "kind": "doc", "node": {"id": ids(), "secs": [top]}}
+    if r < 0.8:
+        return {"stream": "shape", "kind": "sec", "node": top}
+    return {"stream": "shape", "kind": "sub", "node": {"id": ids(), "secs": [top]}, "at": [0]}
+
+
+# values beyond the alphabet the model covers: the oracle alone decides (dtypes.get is the reference)
+XSTRS = ["\u0661\u0662\u0663", "\uff11\uff12", "1\u2028", "\u2028", "\u0085", "1\u00a0", "\u00bd", "\u00e9",
+         "1_000", "1_0", "_1", "1e400", "-1e400", "1e-400", "\u0661.\u0665", "\u0662\u0660\u0662\u0660-\u0660\u0661-\u0660\u0662",
+         "0999-12-31", "999-01-01", "0001-01-01", "0001-01-01 00:00:00", "9999-12-31 23:59:59", "10000-01-01",
+         "true\u2028", "T\u0085", "(1;\u0662)", "\ud800", "1\x00", "\x0c1", "1\x1f", "\ufeff1", "\u22121", "Infinity", "NaN", "1d5"]
+XINTS = [10 ** 15 + 1, 10 ** 20, -10 ** 20, 10 ** 400, -10 ** 400, 2 ** 63, 2 ** 31]
+
+
+def gen_xprop(rng, ids):
+    dtype = rng.choice(["int", "float", "boolean", "date", "time", "datetime", "string", "text", "2-tuple", None])
+    values = []
+    for _ in range(rng.choice([1, 1, 2, 3])):
+        r = rng.random()
+        if r < 0.65:
+            values.append({"s": rng.choice(XSTRS)})
+        elif r < 0.85:
+            values.append({"i": rng.choice(XINTS)})
+        else:
+            values.append(gen_val(rng, STRS))
+    return {"id": ids(), "name": rng.choice(["p", "\u00e4", "=id"]), "dtype": dtype, "values": values,
+            "raw": rng.random() < 0.7, "card": rng.choice([None, None, [2, None], [None, 1]])}
 
 
 # ----------------------------------------------------------------------------- the check
@@ -669,7 +1329,9 @@ class C08(fw.Check):
         "names, ids, types, dtypes, dependency and dependency_value are str or None (other Python "
         "types are outside the model; the harness skips the model for them)",
         "string values are ASCII without '_' (int()/float()/strptime/\\d are modelled for ASCII); "
-        "decimal exponents small enough not to overflow; ints small enough for float()",
+        "decimal exponents small enough not to overflow (fewer than three exponent digits); ints small "
+        "enough for float(); names/types/ids without surrogates or non-BMP characters (JSON transport)",
+        "a Property inside a Section validated on its own is not a Node of the model: oracle only",
         "sections are visited depth-first in the model, breadth-first in the code: issue multisets only",
     ]
     rule = ("random trees (depth <= 3) over small name/type/id alphabets with duplicate ids, empty names, "
@@ -677,6 +1339,17 @@ class C08(fw.Check):
             "every Python type against every dtype (built below the API where it refuses), every "
             "cardinality/count combination; validated as Document, stand-alone Section, Section inside a "
             "Document, stand-alone Property; plus a save stream (errors block, warnings do not). "
+            "Operation histories on such trees: links and includes (resolved, unresolved, dangling; set by "
+            "the setter, the constructor, on a detached Section), merges, clones with/without keep_id, "
+            "edits of the objects an earlier operation touched (type, cardinalities in every argument "
+            "shape, names, new Properties with dependencies, values, dtypes), removals, reorderings, "
+            "finalize(), a round trip through a writer/reader, validations and saves in the middle; the "
+            "result validated as Document, as a Section inside it or as a Property inside it, through "
+            "every public way of running a validation (Validation(obj), run_validation() again, "
+            "validate=False + run_validation(), report(), Document.validate(), a Validation object made "
+            "before the last edits) and saved through XML/JSON/YAML/RDF writers and odml.save. Wide (10+ "
+            "siblings) and deep (10 levels) trees, two-digit and huge cardinality bounds, whitespace and "
+            "non-ASCII names/types, values outside the modelled alphabet (oracle only). "
             "Non-trivial = at least one issue reported; distinct = distinct canonical JSON of the case.")
 
     # -- generation ----------------------------------------------------------
@@ -730,99 +1403,299 @@ class C08(fw.Check):
                 secs.append(gen_sec(rng, ids, 1, STRS[:20], dirt, [x["name"] for x in secs]))
             doc = {"id": ids(), "secs": secs}
             cases.append({"stream": "save", "kind": "doc", "node": doc, "save": True})
+        # ---- streams added after the second seeded round (appended, the ones above are unchanged)
+        scratch_dir()
+        with fw.quiet():
+            term_url()      # written before the workers fork, so all of them share one file
+            self.preload_terminology()
+        for _ in range(2600 if quick else 60000):
+            cases.append(gen_history_case(rng, STRS))
+        for _ in range(250 if quick else 5000):
+            cases.append(gen_shape_case(rng, STRS))
+        for _ in range(400 if quick else 10000):
+            cases.append({"stream": "xprop", "kind": "prop", "node": gen_xprop(rng, id_source(rng, 0.0))})
+        # two-digit and huge cardinality bounds against the counts around them
+        for lo, hi in ((10, None), (None, 10), (9, 11), (10, 10), (11, 12), (None, 9), (12, None), (2, 10),
+                       (10, 100), (None, 10 ** 20), (10 ** 20, None), (9, 10)):
+            for n in range(8, 14):
+                cases.append({"stream": "card2", "kind": "prop",
+                              "node": {"id": "p", "name": "p", "dtype": "int", "values": [{"i": k} for k in range(n)],
+                                       "card": [lo, hi]}})
+                cases.append({"stream": "card2", "kind": "sec",
+                              "node": {"id": "s", "name": "s", "type": "t", "sc": [lo, hi], "pc": [lo, hi],
+                                       "props": [{"id": "p%d" % k, "name": "p%d" % k, "values": []} for k in range(n)],
+                                       "subs": [{"id": "c%d" % k, "name": "c%d" % k, "type": "t", "props": [],
+                                                 "subs": []} for k in range(21 - n)]}})
+        # every writer format and both entry points against documents with / without errors
+        for _ in range(200 if quick else 4000):
+            dirt = rng.choice([0.0, 0.0, 0.05, 0.3])
+            ids = id_source(rng, 0.2 if dirt else 0.0)
+            secs = []
+            for _ in range(rng.choice([1, 2])):
+                secs.append(gen_sec(rng, ids, 1, STRS[:20], dirt, [x["name"] for x in secs]))
+            cases.append({"stream": "save2", "kind": "doc", "node": {"id": ids(), "secs": secs},
+                          "save": {"fmt": rng.choice(SAVE_FORMATS[1:]), "entry": rng.choice(["writer", "odml.save"])}})
         return cases
+
+    @staticmethod
+    def preload_terminology():
+        """load the terminology file once in the parent process: the forked workers inherit the parsed
+        document instead of racing for the library's cache file"""
+        url = term_url()
+        if url is None:
+            return
+        try:
+            import odml.terminology
+            odml.terminology.load(url)
+        except Exception:
+            pass
 
     # -- implementation ------------------------------------------------------
     def impl(self, case):
-        from odml.validation import Validation
+        before = set(threading.enumerate())
+        try:
+            return self.impl_inner(case)
+        finally:
+            # the include setter starts loader threads that print; they finish inside this case
+            for thread in threading.enumerate():
+                if thread not in before and thread is not threading.current_thread():
+                    thread.join(10)
+
+    def impl_inner(self, case):
         try:
             root, bt = build(case)
         except Exception as exc:
             return {"build_failed": fw.exc_name(exc)}
-        kind, snap, refs = snapshot(root)
-        obs = {"kind": kind, "snapshot": jsonable(snap), "below_api": bt.below_api}
+        hist = None
+        pre = None
+        target = root
+        if "ops" in case or "view" in case:
+            if case.get("pre"):
+                pre = self.observe(root, [])
+            try:
+                root, hist = run_history(case, root, bt, self)
+                target = pick_view(case, root)
+            except HistoryTooLong:
+                return {"skipped": "the history did not finish within its budget"}
+            except Exception as exc:
+                return {"build_failed": fw.exc_name(exc)}
+        obs = self.observe(target, hist.stale if hist is not None else [])
+        obs["below_api"] = bt.below_api
+        if pre is not None:
+            obs["pre"] = dict((k, pre[k]) for k in ("kind", "node", "issues", "crash", "unsupported") if k in pre)
+            obs["oracle"] += ["before the history: " + f for f in pre["oracle"]]
+        if hist is not None:
+            obs["history"] = {"applied": hist.applied, "refused": hist.refused}
+            obs["features"] = self.features(root)
+            obs["oracle"] += hist.mid
+            if hist.saves:
+                obs["saves"] = hist.saves
+        if case.get("save") and obs["kind"] == "doc":
+            how = case["save"] if isinstance(case["save"], dict) else {}
+            rec = self.judged_save(target, how.get("fmt", "XML"), how.get("entry", "writer"), hist)
+            obs["save"] = rec["outcome"]
+            obs["save_errors_expected"] = rec["errors_expected"]
+            obs["save_fmt"] = rec["fmt"]
+        return obs
+
+    def observe(self, target, stale):
+        """snapshot, model node, Validation(target) and every other way of validating the same object"""
+        from odml.validation import Validation
+        kind, snap, refs = snapshot(target)
+        obs = {"kind": kind, "snapshot": jsonable(snap)}
         try:
-            node = model_node(kind, snap)
-            obs["node"] = node
+            obs["node"] = model_node(kind, snap)
         except Unsupported as exc:
             obs["unsupported"] = str(exc)
         try:
-            val = Validation(root)
+            val = Validation(target)
             obs["issues"] = issue_list(val.errors, refs)
             obs["crash"] = None
         except Exception as exc:
             obs["issues"] = []
             obs["crash"] = fw.exc_name(exc)
         # what the oracle needs is computed here (the snapshot holds live Python values)
-        obs["oracle"] = judge(expectation(kind, snap), obs["issues"], obs["crash"])
-        if case.get("save") and kind == "doc":
-            obs["save"] = self.try_save(root)
-            errors_expected = any(code in (101, 200, 201, 202, 203)
-                                  for (_r, code) in self.must_codes(kind, snap))
-            obs["save_errors_expected"] = errors_expected
+        ex = expectation(kind, snap)
+        obs["oracle"] = judge(ex, obs["issues"], obs["crash"])
+        # "Validating any document, Section or Property": every public way of running the validation
+        # (a Validation object run again, filled later, asked for its report, made before the last
+        # edits; Document.validate) is held to the same rules.  Only deviating results are kept.
+        alt = {}
+        for name, run in self.entries(target, stale):
+            try:
+                issues, crash = issue_list(run(), refs), None
+            except Exception as exc:
+                issues, crash = [], fw.exc_name(exc)
+            if issues != obs["issues"] or crash != obs["crash"]:
+                alt[name] = {"issues": issues, "crash": crash}
+                obs["oracle"] += ["%s: %s" % (name, f) for f in judge(ex, issues, crash)]
+        if alt:
+            obs["alt"] = alt
         return obs
 
     @staticmethod
+    def entries(target, stale):
+        from odml.validation import Validation
+
+        def rerun():
+            val = Validation(target)
+            val.run_validation()
+            return val.errors
+
+        def report():
+            val = Validation(target)
+            val.report()
+            return val.errors
+
+        def deferred():
+            val = Validation(target, validate=False)
+            val.run_validation()
+            return val.errors
+
+        out = [("run_validation() a second time", rerun), ("errors after report()", report),
+               ("Validation(validate=False).run_validation()", deferred)]
+        if target.format().name not in ("section", "property"):
+            out.append(("Document.validate()", lambda: target.validate().errors))
+        for k, val in enumerate(stale[:4]):
+            if getattr(val, "obj", None) is target:
+                def again(val=val):
+                    val.run_validation()
+                    return val.errors
+                out.append(("Validation object #%d made earlier in the history, run again" % k, again))
+        return out
+
+    @staticmethod
+    def features(root):
+        """which of the other library features are present in the final tree (for the distribution)"""
+        out = {"link": 0, "include": 0, "merged": 0}
+        try:
+            secs = list(root.itersections(recursive=True))
+        except Exception:
+            return out
+        for sec in secs:
+            out["link"] += sec.link is not None
+            out["include"] += sec.include is not None
+            out["merged"] += bool(sec.is_merged)
+        return out
+
+    @staticmethod
     def must_codes(kind, snap):
-        ex = expectation(kind, snap)
+        return C08.must_codes_ex(expectation(kind, snap))
+
+    @staticmethod
+    def must_codes_ex(ex):
         out = list(ex.must.keys())
         for code, _m, reportable, needed in ex.groups:
             if needed > 0 and reportable:
                 out.append((reportable[0], 200 if code == "ids" else code))
         return out
 
+    def judged_save(self, doc, fmt, entry, hist):
+        """one save attempt together with what the property says about the document at that moment"""
+        from odml.validation import Validation
+        kind, snap, refs = snapshot(doc)
+        ex = expectation(kind, snap)
+        try:
+            issues, crash = issue_list(Validation(doc).errors, refs), None
+        except Exception as exc:
+            issues, crash = [], fw.exc_name(exc)
+        outcome = self.try_save(doc, fmt, entry, hist.writers if hist is not None else None)
+        errors_expected = any(code in (101, 200, 201, 202, 203) for (_r, code) in self.must_codes_ex(ex))
+        error_reported = any(i[2] == ERR for i in issues)
+        if outcome == "ParserException" and not errors_expected and not error_reported:
+            # The writer backends raise ParserException themselves for content they cannot write (a
+            # tuple value with a line break).  That is not the validation blocking the save: when
+            # the serialisation alone (to_string runs no validation) fails as well, no opinion.
+            try:
+                from odml.tools.odmlparser import ODMLWriter
+                ODMLWriter(fmt).to_string(doc)
+            except Exception as exc:
+                outcome = "other:the %s backend cannot write this document (%s)" % (fmt, fw.exc_name(exc))
+        return {"fmt": fmt, "entry": entry, "outcome": outcome, "crash": crash,
+                "errors_expected": errors_expected, "error_reported": error_reported,
+                "judged_clean": not judge(ex, issues, crash)}
+
     @staticmethod
-    def try_save(doc):
+    def try_save(doc, fmt="XML", entry="writer", writers=None):
         from odml.tools.odmlparser import ODMLWriter
         try:
             from odml.tools.parser_utils import ParserException
         except ImportError:
             ParserException = None
-        tmp = tempfile.mkdtemp(prefix="c08_")
+        _SCRATCH["n"] = _SCRATCH.get("n", 0) + 1
+        path = os.path.join(scratch_dir(), "out_%d_%d.%s" % (os.getpid(), _SCRATCH["n"], fmt.lower()))
         try:
-            path = os.path.join(tmp, "out.xml")
             try:
-                ODMLWriter("XML").write_file(doc, path)
+                if entry == "odml.save":
+                    import odml
+                    odml.save(doc, path, fmt)
+                else:
+                    # the same writer object serves every save of one case
+                    writer = ODMLWriter(fmt) if writers is None else writers.setdefault(fmt, ODMLWriter(fmt))
+                    writer.write_file(doc, path)
                 return "saved"
             except Exception as exc:
                 if ParserException is not None and isinstance(exc, ParserException):
                     return "ParserException"
                 return "other:" + fw.exc_name(exc)
         finally:
-            shutil.rmtree(tmp, ignore_errors=True)
+            try:
+                os.remove(path)
+            except OSError:
+                pass
 
     # -- model ---------------------------------------------------------------
-    def model_requests(self, case, obs):
-        if "node" not in obs:
-            return []
-        reqs = [{"p": "C08", "op": "validate", "kind": obs["kind"], "node": obs["node"]}]
-        if "save" in obs:
-            reqs.append({"p": "C08", "op": "blocks_save", "node": obs["node"]})
-        return reqs
+    @staticmethod
+    def request_plan(obs):
+        """[(label, request)] in the order they are sent"""
+        plan = []
+        if "node" in obs:
+            plan.append(("main", {"p": "C08", "op": "validate", "kind": obs["kind"], "node": obs["node"]}))
+            if "save" in obs:
+                plan.append(("save", {"p": "C08", "op": "blocks_save", "node": obs["node"]}))
+        pre = obs.get("pre")
+        if pre and "node" in pre:
+            plan.append(("pre", {"p": "C08", "op": "validate", "kind": pre["kind"], "node": pre["node"]}))
+        return plan
 
-    def compare(self, case, obs, answers):
+    def model_requests(self, case, obs):
+        if "build_failed" in obs or "skipped" in obs:
+            return []
+        return [req for _label, req in self.request_plan(obs)]
+
+    @staticmethod
+    def compare_validation(a, issues, crash, where):
         out = []
-        if "build_failed" in obs or not answers:
-            return out
-        a = answers[0]
-        if a["crash"] != (obs["crash"] is not None):
-            out.append("model crash=%s, implementation raised %s" % (a["crash"], obs["crash"]))
+        if a["crash"] != (crash is not None):
+            out.append("%smodel crash=%s, implementation raised %s" % (where, a["crash"], crash))
         elif not a["crash"]:
             mine = sorted(a["issues"], key=lambda x: (x[0], x[1], x[2]))
-            theirs = [list(x) for x in obs["issues"]]
+            theirs = [list(x) for x in issues]
             if mine != theirs:
                 extra = [x for x in mine if x not in theirs]
                 missing = [x for x in theirs if x not in mine]
-                out.append("issue multisets differ: model-only %s, implementation-only %s (sizes %d/%d)"
-                           % (extra[:4], missing[:4], len(mine), len(theirs)))
-        if "save" in obs and len(answers) > 1 and not a["crash"]:
-            if answers[1] != (obs["save"] == "ParserException"):
-                out.append("model blocks_save=%s, implementation save outcome %s" % (answers[1], obs["save"]))
+                out.append("%sissue multisets differ: model-only %s, implementation-only %s (sizes %d/%d)"
+                           % (where, extra[:4], missing[:4], len(mine), len(theirs)))
+        return out
+
+    def compare(self, case, obs, answers):
+        out = []
+        if "build_failed" in obs or "skipped" in obs or not answers:
+            return out
+        by = dict((label, ans) for (label, _req), ans in zip(self.request_plan(obs), answers))
+        if "main" in by:
+            out += self.compare_validation(by["main"], obs["issues"], obs["crash"], "")
+            if "save" in by and not by["main"]["crash"]:
+                if by["save"] != (obs["save"] == "ParserException"):
+                    out.append("model blocks_save=%s, implementation save outcome %s" % (by["save"], obs["save"]))
+        if "pre" in by:
+            out += self.compare_validation(by["pre"], obs["pre"]["issues"], obs["pre"]["crash"],
+                                           "before the history: ")
         return out
 
     # -- oracle --------------------------------------------------------------
     def oracle(self, case, obs):
-        if "harness_exception" in obs:
+        if "harness_exception" in obs or "skipped" in obs:
             return []
         if "build_failed" in obs:
             return ["building the objects through the API raised %s" % obs["build_failed"]]
@@ -836,10 +1709,23 @@ class C08(fw.Check):
             if not obs["save_errors_expected"] and obs["save"] == "ParserException" and \
                     not [f for f in out]:
                 out.append("document whose only issues are warnings was refused by save")
+        # saves in the middle of a history: the same three clauses, over the document of that moment
+        for k, rec in enumerate(obs.get("saves", [])):
+            if rec["crash"] is not None:
+                continue
+            where = "save #%d in the history (%s, %s): " % (k, rec["fmt"], rec["entry"])
+            if rec["errors_expected"] and rec["outcome"] != "ParserException":
+                out.append(where + "document with validation errors: save outcome %s" % rec["outcome"])
+            if not rec["errors_expected"] and rec["outcome"] == "ParserException" and not rec["error_reported"]:
+                out.append(where + "document without any error-rank issue was refused by save")
+            if not rec["errors_expected"] and rec["outcome"] == "ParserException" and rec["judged_clean"]:
+                out.append(where + "document whose only issues are warnings was refused by save")
         return out
 
     def tag(self, case, obs):
         st = case["stream"]
+        if "skipped" in obs:
+            return (st + ":skipped", False)
         if "build_failed" in obs:
             return (st + ":build_failed", False)
         if obs.get("crash"):
@@ -848,7 +1734,12 @@ class C08(fw.Check):
             return (st + ":unsupported", False)
         codes = sorted(set(i[1] for i in obs.get("issues", []) if i[1] is not None))
         any_issue = bool(codes)
-        if st in ("doc", "sub", "sec"):
+        if st == "ops":
+            feat = obs.get("features", {})
+            what = "+".join(k for k in ("link", "include", "merged") if feat.get(k)) or "plain"
+            view = obs.get("kind")
+            return ("ops:%s:%s:%s" % (what, view, "issues" if any_issue else "clean"), any_issue)
+        if st in ("doc", "sub", "sec", "shape", "save2"):
             return ("%s:%s" % (st, "issues" if any_issue else "clean"), any_issue)
         return ("%s:%s" % (st, ",".join(str(c) for c in codes) or "clean"), any_issue)
 
